@@ -66,6 +66,7 @@ package memcall
 
 // ---- C12: Clean attempts both steps whatever the first returns, and reports an error iff either failed ----
 //@ func Clean
+//@   names c, b
 //@   facet C12
 //@   safety C12
 //@   requires c != nil
